@@ -48,6 +48,12 @@ def gen_cases(rng, tier):
         ops.append(["cur_reg", bad])
     ops.append(["observe"])
     cases.append({"ops": ops, "fork": True, "tags": ["iso-table"]})
+    # symbols of units that are NOT currencies are unknown codes too
+    ops = [["load_predefined"], ["load_money"], ["decl_class", "Pieces", "-", "PCS", "0", "-"]]
+    for bad in ["kg", "m", "PCS", "B", "kg", "EUR", "PCS"]:
+        ops.append(["cur_reg", bad])
+    ops.append(["q_mk", "-", "3", "PCS", _money.MODE])
+    cases.append({"ops": ops, "fork": True, "tags": ["iso-table", "foreign-symbols"]})
     # (b) mixed pairs
     n_sets = 8 if tier == "thorough" else 2
     codes_all = [c for c, _, _ in table]
